@@ -42,6 +42,11 @@ class ExcV(V):
         return f"ExcV({self.cls})"
 
 
+class SliceV(V):
+    def __init__(self, lower, upper, step):
+        self.lower, self.upper, self.step = lower, upper, step
+
+
 class CollV(V):
     """an unordered collection of opaque objects given by a membership predicate (d.values(), a set,
     a generator expression over them): what `gather(*...)` receives"""
@@ -629,12 +634,29 @@ class Interp:
             return [(st, c.items[z3.simplify(key.t).as_long()])]
         if isinstance(c, SeqV) and isinstance(key, IntV):
             return [(st, c.at(key.t))]
+        if isinstance(c, SeqV) and isinstance(key, SliceV) and key.lower is None and key.step is None and isinstance(key.upper, IntV):
+            # seq[:u]  (Python: u >= 0 -> the first min(u, n) elements; u < 0 -> the first max(n + u, 0) elements); a new list
+            u, n = key.upper.t, c.n
+            m = z3.If(u >= 0, z3.If(u < n, u, n), z3.If(n + u > 0, n + u, 0))
+            return [(st, SeqV(m, list(c.arrs), c.layout, mutable=c.mutable))]
         if isinstance(c, KwV) and isinstance(key, StrV) and key.lit is not None:
             ks = key.lit
             if ks in c.d:
                 return [(st, c.d[ks])]
             return [(st, Exit(Exit.RAISE, ExcV("KeyError", [key])))]
         return self.theory.subscript(st, fr, c, key)
+
+    def ev_Slice(self, st, fr, e):
+        parts = [e.lower, e.upper, e.step]
+        present = [x for x in parts if x is not None]
+        out = []
+        for s, vs in self.ev_seq(st, fr, present):
+            if isinstance(vs, Exit):
+                out.append((s, vs))
+                continue
+            it = iter(vs)
+            out.append((s, SliceV(*[next(it) if x is not None else None for x in parts])))
+        return out
 
     def ev_Starred(self, st, fr, e):
         return [(s, v if isinstance(v, Exit) else StarV(v, 1)) for s, v in self.ev(st, fr, e.value)]
